@@ -195,7 +195,7 @@ pub fn run_tape(
                 std::thread::Builder::new()
                     .stack_size(64 << 20)
                     .spawn_scoped(sc, move || {
-                        let mut stats = Stats::new();
+                        let stats = Stats::new();
                         let mut sm = crate::tape::SplitMix(
                             seed.wrapping_mul(0x9E3779B97F4A7C15) ^ name_h ^ ((w as u64) << 48),
                         );
